@@ -12,7 +12,8 @@ RULE = ("populations N>=1 (scipy defines no law for an empty population); hyperg
         "non-trivial = admissible arguments with 0 < p-value < 1; distinct by argument tuple")
 EXHAUSTIVE = {"quick": ["hypergeometric N<=8 all (x,n,G) in [0,N+2]^3", "binomial n<=12, p=k/8"],
               "thorough": ["hypergeometric N<=14 all (x,n,G) in [0,N+2]^3", "binomial n<=30, p=k/8"]}
-ASSUMPTIONS = ["scipy hypergeom/binom cdf and sf are accurate to 1e-12 absolute on these ranges (floats compared with exact Q at 1e-12)"]
+ASSUMPTIONS = ["scipy hypergeom/binom cdf and sf are accurate to 1e-12 absolute on these ranges (floats compared with exact Q at 1e-12)",
+               "far-tail values (down to 1e-280) are compared with the exact rational tail at 1e-9 RELATIVE"]
 ALTS = ["greater", "less", "two-sided"]
 CALT = {"greater": "Greater", "less": "Less", "two-sided": "TwoSided"}
 
@@ -41,6 +42,15 @@ def cases(tier, rng, dist):
         yield {"f": "hyper", "x": x, "N": N, "n": n, "G": G, "alt": rng.choice(ALTS), "big": True}
         n = rng.choice([300, 1000, 3000]); den = rng.choice([2, 4, 8, 16]); pa = rng.randint(0, den)
         yield {"f": "binom", "x": rng.choice([rng.randint(0, n), int(n * pa / den) + rng.randint(-3, 3)]) % (n + 1), "n": n, "pa": pa, "pb": den - pa, "alt": rng.choice(ALTS), "big": True}
+    # deep tails: outcomes at or near an end of the support of a moderately large population have probabilities of 1e-15 ... 1e-250;
+    # they can occur, so their p-value is not 0, and "returns P(X >= x)" is read with a RELATIVE float allowance
+    for _ in range(60 if tier == "quick" else 400):
+        N = rng.choice([60, 100, 100, 200, 400, 1000]); n = rng.randint(N // 4, (3 * N) // 4); G = rng.randint(N // 4, (3 * N) // 4)
+        lo, hi = max(0, n - (N - G)), min(n, G)
+        x = rng.choice([hi - rng.randint(0, 6), lo + rng.randint(0, 6)]); x = max(lo, min(hi, x))
+        yield {"f": "hyper", "x": x, "N": N, "n": n, "G": G, "alt": rng.choice(ALTS), "big": True}
+        n = rng.choice([60, 100, 200, 400]); den = rng.choice([2, 4, 8, 16]); pa = rng.randint(1, den - 1)
+        yield {"f": "binom", "x": rng.choice([n - rng.randint(0, 6), rng.randint(0, 6)]), "n": n, "pa": pa, "pb": den - pa, "alt": rng.choice(ALTS), "big": True}
     for _ in range(300 if tier == "quick" else 3000):
         N = rng.randint(15, 60); n = rng.randint(0, N); G = rng.randint(0, N)
         x = rng.randint(max(0, n - (N - G)), min(n, G)) if rng.random() < 0.9 else rng.randint(0, N)
@@ -101,6 +111,11 @@ def oracle(c, o):
         return {"why": f"{c}: a second call with the same argument objects returned {o['again'][:2]}, the first {r[1]}", "cls": f"{c['f']}:wrong-tail:{c['alt']}"}
     if not math.isfinite(r[1]) or not (abs(Fraction(r[1]) - e) <= Fraction(1, 10**10) + (Fraction(1, 10**9) * e if c.get("big") else 0)):
         return {"why": f"{c}: returned {r[1]}, exact {float(e)}", "cls": f"{c['f']}:wrong-tail:{c['alt']}"}
+    # relative allowance (the unchanged tree is within 5e-13 of the exact value down to 1e-280, measured on 18000 calls): an
+    # outcome that can occur must not get the p-value 0 or a value that is off in its leading digits (validity at small alpha)
+    if e > Fraction(1, 10**280) and abs(Fraction(r[1]) - e) > Fraction(1, 10**9) * e:
+        return {"why": f"{c}: returned {r[1]!r}, exact {float(e)!r} (relative error {float(abs(Fraction(r[1]) - e) / e):.3g}): a possible outcome in the far tail gets a p-value that is not its tail probability",
+                "cls": f"{c['f']}:wrong-tail:{c['alt']}"}
     return None
 
 
